@@ -33,6 +33,7 @@ type End struct {
 	Class     string            `json:"class,omitempty"`   // violation class, empty if the run is clean
 	Message   string            `json:"message,omitempty"` // human-readable detail of the violation
 	Signature map[string]any    `json:"signature,omitempty"`
+	More      []Extra           `json:"more,omitempty"` // further violations of the same run
 	Steps     int               `json:"steps"`
 	Switches  int               `json:"switches"`
 	TraceHash string            `json:"trace_hash"`
@@ -47,6 +48,13 @@ type End struct {
 	Config    json.RawMessage   `json:"config,omitempty"`  // on violation (or verbose): the fully expanded configuration
 	Choices   []int             `json:"choices,omitempty"`
 	Ops       json.RawMessage   `json:"ops,omitempty"`
+}
+
+// Extra is a further violation observed in the same run after a continuable one.
+type Extra struct {
+	Class     string         `json:"class"`
+	Message   string         `json:"message"`
+	Signature map[string]any `json:"signature,omitempty"`
 }
 
 // ReplayFile is the self-contained description of one failing run.
